@@ -277,6 +277,9 @@ func matAssets(b *Behaviour, opts *MatOpts, gone map[int]bool) []byte {
 		"fields": []M{{"uuid": "f1b5aea6-6586-41c7-9020-1a6326cc6565", "key": "vc", "name": "Vc", "type": "number"}},
 		"channels": []M{{"uuid": "57f1078f-88aa-46f4-a59a-948a5739c03d", "name": "Android", "address": "+17036975131", "schemes": []string{"tel"},
 			"roles": []string{"send", "receive", "call", "answer"}, "country": "US"}},
+		"optins": []M{{"uuid": "248be71d-78e9-4d71-a6c4-9981d369e5cb", "name": "Joke Of The Day"}},
+		"topics": []M{{"uuid": "472a7a73-96cb-4736-b567-056d987cc5b4", "name": "Weather"}},
+		"users":  []M{{"email": "bob@nyaruka.com", "name": "Bob"}},
 	}
 	return mustJSON(a)
 }
@@ -341,6 +344,34 @@ func matTriggerOpts(b *Behaviour, flow int, ftype string, opts *MatOpts) []byte 
 		t["run_summary"] = M{"uuid": "4213ac47-93fd-48c4-af12-7da8218ef09d", "flow": M{"uuid": "93c554a1-b90d-4892-b029-a2a87dec9b87", "name": "Other"},
 			"contact": M{"uuid": "c59b0033-e748-4240-9d4c-e85eb6800151", "name": "Jim", "created_on": "2018-01-01T12:00:00Z", "urns": parentURNs},
 			"status":  "active", "results": M{"age": M{"name": "Age", "value": "33", "node_uuid": "cd2be8c4-59bc-453c-8777-dec9a80043b8", "created_on": "2000-01-01T00:00:00Z"}}}
+	// the remaining trigger types start a session like a manual trigger does (no input); the *_gone variants name an
+	// asset that is not among the session assets (reported through the missing-asset callback, the session still starts)
+	case "campaign":
+		t["type"] = "campaign"
+		t["event"] = M{"uuid": "34d16dbd-476d-4b77-bac3-9f3d597848cc", "campaign": M{"uuid": "58e9b092-fe42-4173-876c-ff45a14a24fe", "name": "New Mothers"}}
+	case "channel", "channel_gone":
+		t["type"] = "channel"
+		ch := M{"uuid": "57f1078f-88aa-46f4-a59a-948a5739c03d", "name": "Android"}
+		if b.Trig == "channel_gone" {
+			ch = M{"uuid": "8cd472c4-bb85-459a-8c9f-c04708af799e", "name": "Gone"}
+		}
+		t["event"] = M{"type": "new_conversation", "channel": ch}
+	case "optin", "optin_gone":
+		t["type"] = "optin"
+		oi := M{"uuid": "248be71d-78e9-4d71-a6c4-9981d369e5cb", "name": "Joke Of The Day"}
+		if b.Trig == "optin_gone" {
+			oi = M{"uuid": "b7f6b2d6-1c1f-4b62-b9ae-1d1c7d1b0d50", "name": "Gone"}
+		}
+		t["event"] = M{"type": "started", "optin": oi}
+	case "ticket", "ticket_gone":
+		t["type"] = "ticket"
+		tk := M{"uuid": "0d43506d-b92f-4468-8bee-0f31dd438abf", "topic": M{"uuid": "472a7a73-96cb-4736-b567-056d987cc5b4", "name": "Weather"},
+			"assignee": M{"email": "bob@nyaruka.com", "name": "Bob"}}
+		if b.Trig == "ticket_gone" {
+			tk = M{"uuid": "0d43506d-b92f-4468-8bee-0f31dd438abf", "topic": M{"uuid": "5d7a3e1c-1c2a-4f0e-9d1b-2f1e1c6b7a55", "name": "Gone"},
+				"assignee": M{"email": "gone@nyaruka.com", "name": "Gone"}}
+		}
+		t["event"] = M{"type": "closed", "ticket": tk}
 	default:
 		panic("unknown trigger kind " + b.Trig)
 	}
